@@ -13,13 +13,13 @@ Proof. vm_compute. reflexivity. Qed.
 Lemma inst1_terminates : level 28 (init cfg1 ev1) = [].
 Proof. vm_compute. reflexivity. Qed.
 
-(* a peer whose first datagram is a Setup, then every trigger *)
+(* a peer whose first datagram is a Setup (the monitor starts while triggers arrive), then every trigger *)
 Definition cfg3 : list acfg := [ACfg [1] true (Some DSetup)].
 Definition ev3 : list env := [rel 0; ETimeout 0; EHbFail 0].
 Lemma inst3_ok : instance_ok 1000000 cfg3 ev3 = true.
 Proof. vm_compute. reflexivity. Qed.
 
-(* a peer whose first datagram is a release (F41: forgotten_ok does not apply), retransmitted, then silence *)
+(* a peer whose first datagram is a release, retransmitted, then silence: forgotten like any other *)
 Definition cfg2 : list acfg := [ACfg [1] false (Some DRelease)].
 Definition ev2 : list env := [rel 0; ETimeout 0].
 Lemma inst2_ok : instance_ok 1000000 cfg2 ev2 = true.
